@@ -23,10 +23,10 @@ func init() {
 				Flavours: []string{"plain", "cover"},
 				Blocks:   16,
 				Procs:    16,
-				Rule: "case = pair (lhs, rhs) of int sequences. Exhaustive: every pair over alphabet 3 x length <= 7 (10,758,400 pairs), alphabet 2 x length <= 9 (1,046,529 pairs) and alphabet 4 x length <= 5 (1,863,225 pairs) in quick; additionally alphabet 2 x length <= 11, alphabet 3 x length <= 8 (96.8 M pairs) and alphabet 5 x length <= 5 in thorough; random pairs of length up to 400 made of long common runs with point mutations, insertions, deletions and block moves over alphabets of 2..50 symbols. " +
+				Rule: "case = pair (lhs, rhs) of int sequences. Exhaustive: every pair over alphabet 3 x length <= 7 (10,758,400 pairs), alphabet 2 x length <= 9 (1,046,529 pairs) and alphabet 4 x length <= 5 (1,863,225 pairs) in quick; additionally alphabet 2 x length <= 11, alphabet 3 x length <= 8 (96.8 M pairs) and alphabet 5 x length <= 5 in thorough; every pair of windows (prefix/prefix, window/prefix, suffix/prefix) of one shared backing array of up to 9 binary elements (inputs that alias each other); random pairs of length up to 400 made of long common runs with point mutations, insertions, deletions and block moves over alphabets of 2..50 symbols. " +
 					"Per pair: interpreter (each edit's X and Y are the spans of lhs and rhs at the current offsets, by value and by address; lhs consumed and rhs produced exactly), emitted element count == LCS length from an independent O(mn) table, canonical form (no empty edit, adjacent edits differ in kind, no Drop next to Copy, only the four opcodes, empty iff equal), inputs unmodified. " +
 					"distinct = the pair itself (enumerated without repetition; random pairs by hash); non-trivial = the pair has more than one optimal alignment (counted by a separate DP)",
-				Required:     []string{"pairs", "ambiguous_pairs", "replace_edits", "equal_pairs", "random_pairs"},
+				Required:     []string{"pairs", "ambiguous_pairs", "replace_edits", "equal_pairs", "random_pairs", "aliased_pairs"},
 				Exhaustive:   true,
 				Assumptions:  []string{"the O(mn) LCS table is the reference for minimality"},
 				CoverPkgs:    []string{"github.com/creachadair/mds/slice"},
@@ -272,6 +272,32 @@ func runC11(c *fw.Ctx) {
 			}
 		}
 		idx += n
+	}
+	// inputs that share storage: prefixes, suffixes and overlapping windows of one backing array
+	if c.Begin(idx + 900000 + c.Block) {
+		var n int64
+		for total := 1; total <= 9; total++ {
+			buf := make([]int, total)
+			for code := c.Block; code < 1<<uint(total); code += c.NBlocks {
+				for i := range buf {
+					buf[i] = code >> uint(i) & 1
+				}
+				for a := 0; a <= total; a++ {
+					for b := a; b <= total; b++ {
+						// windows [0:b) vs [0:a) (same start), [a:b) vs [0:b), [a:total) vs [0:b)
+						for _, pr := range [][2][]int{{buf[:b], buf[:a]}, {buf[:a], buf[:b]}, {buf[a:b], buf[:b]}, {buf[a:], buf[:b]}, {buf[:b:b], buf[a:]}} {
+							am, _ := c11check(c, pr[0], pr[1])
+							n++
+							_ = am
+						}
+					}
+				}
+			}
+		}
+		c.Evals(n)
+		c.Add("pairs", n)
+		c.Add("aliased_pairs", n)
+		c.SeenEnum(n)
 	}
 	// random long pairs
 	nr := c.Pick(150, 3000)
